@@ -33,9 +33,9 @@ func (g *cGraph) reads() []cgRead {
 		}
 		// only Reads of the input stream: the receiver originates in an io.Reader parameter of the
 		// entry point (possibly re-wrapped by io.MultiReader / a field of a helper object)
-		if c.Call.IsInvoke() {
+		if rv, ok := g.readReceiver(CV{n.C, c}); ok {
 			fromInput := false
-			for _, sv := range g.sources(CV{n.C, c.Call.Value}) {
+			for _, sv := range g.sources(rv) {
 				if pa, ok := sv.V.(*ssa.Parameter); ok && sv.C == g.root {
 					_ = pa
 					fromInput = true
@@ -1390,4 +1390,25 @@ func (x *c01Ctx) carryOverG(pp *cgPipe, owner string, fill *cgRead, pos string) 
 		}
 	}
 	r.OK("C01.R5-segment-args", cons, pos, "buffer[0] = buffer[count-1] of the previous fill, count restarts at 1")
+}
+
+// readReceiver: the stream a Read call reads from — the interface value of an invoke, the receiver of a
+// static method call, or the value a method value (read := in.Read) was bound to.
+func (g *cGraph) readReceiver(call CV) (CV, bool) {
+	c := call.V.(*ssa.Call)
+	if c.Call.IsInvoke() {
+		return CV{call.C, c.Call.Value}, true
+	}
+	v := g.deep(CV{call.C, c.Call.Value})
+	switch f := v.V.(type) {
+	case *ssa.MakeClosure:
+		if fn, ok := f.Fn.(*ssa.Function); ok && strings.HasSuffix(fn.Name(), "$bound") && len(f.Bindings) == 1 {
+			return CV{v.C, f.Bindings[0]}, true
+		}
+	case *ssa.Function:
+		if f.Signature.Recv() != nil && len(c.Call.Args) > 0 {
+			return CV{call.C, c.Call.Args[0]}, true
+		}
+	}
+	return CV{}, false
 }
